@@ -4,7 +4,8 @@ Rules that still look at statement shapes (which local is returned, which statem
 tree for code that differs only by
   * a value routed through a single-use temporary right before its only use (`t = e; return t`, `t = e; x = t`),
   * a dead local (a name bound to a constant and never read in the function),
-  * an augmented assignment on a plain local spelled out (`x = x + e`  ->  `x += e` for + - * on names).
+  * an augmented assignment on a plain local spelled out (`x = x + e`  ->  `x += e` for + - * on names),
+  * a list comprehension evaluated only for its side effects written as the loop it is.
 Positions of the surviving nodes are kept, so reports still point at the source.  Nothing here changes what the
 analysed code does; it only removes spellings."""
 import ast
@@ -84,6 +85,25 @@ def _normalize_body(body, scope):
             ast.copy_location(new, st)
             ast.copy_location(new.target, st.targets[0])
             out.append(new)
+            i += 1
+            continue
+        # a list comprehension evaluated for its side effects only:  [f(i) for i in X if c]  ->  for i in X: (if c:) f(i)
+        if isinstance(st, ast.Expr) and isinstance(st.value, ast.ListComp) and isinstance(st.value.elt, ast.Call):
+            loop = [ast.copy_location(ast.Expr(value=st.value.elt), st)]
+            for g in reversed(st.value.generators):
+                for cond in reversed(g.ifs):
+                    loop = [ast.copy_location(ast.If(test=cond, body=loop, orelse=[]), st)]
+                loop = [ast.copy_location(ast.For(target=g.target, iter=g.iter, body=loop, orelse=[], type_comment=None), st)]
+            for n in ast.walk(loop[0]):
+                if isinstance(n, ast.Name) and isinstance(n.ctx, ast.Load):
+                    pass
+            # the comprehension target becomes a loop target: mark as a store
+            for n in ast.walk(loop[0]):
+                if isinstance(n, ast.For):
+                    for x in ast.walk(n.target):
+                        if isinstance(x, ast.Name):
+                            x.ctx = ast.Store()
+            out.append(loop[0])
             i += 1
             continue
         out.append(st)
